@@ -518,12 +518,19 @@ def removal_helpers(repo, fi: FuncInfo):
                 k = st.node.args[0]
             else:
                 continue
-            if not (isinstance(k, ast.Name) and k.id in params):
-                continue
-            i = params.index(k.id)
-            arg = c.args[i] if i < len(c.args) else next((kw_.value for kw_ in c.keywords if kw_.arg == k.id), None)
-            if arg is None:
-                continue
+            amap_ = {params[i_]: a_ for i_, a_ in enumerate(c.args) if i_ < len(params)}
+            amap_.update({kw_.arg: kw_.value for kw_ in c.keywords if kw_.arg})
+            if isinstance(k, ast.Name) and k.id in params:
+                arg = amap_.get(k.id)
+                if arg is None:
+                    continue
+            else:
+                # key computed inside the helper from what it was handed: the key expression with the arguments
+                # substituted for the parameters
+                used = {n_.id for n_ in ast.walk(k) if isinstance(n_, ast.Name)} - {"self", "cls"}
+                if not used or not used <= set(amap_):
+                    continue
+                arg = clone(k, lambda n_: clone(amap_[n_.id]) if isinstance(n_, ast.Name) and n_.id in amap_ else None)
             # entry locals: assigned from table.get(key) / table[key]
             entry = {s_.path for s_ in stores(h.node, into_defs=False) if s_.kind == "assign" and s_.value is not None
                      and "." not in s_.path and any(is_table(repo, ap(x)) for x in ast.walk(s_.value)
